@@ -12,10 +12,14 @@ CONSTANTS
   Emit = "lts"
   BlockLen = 0
   LookupMemo = FALSE
-  NParas = 3
+  FilesEndCounter = FALSE
+  ScanStopsAtLicense = FALSE
+  MaxFiles = 3
+  MaxLic = 2
   FPool <- MCFPoolE
   FNames <- MCFNames
 SPECIFICATION FSpec
+INVARIANT ImplOrder
 PROPERTY FindIsLast
 VIEW FView
 CHECK_DEADLOCK FALSE
